@@ -57,6 +57,15 @@ def _eye(interp, args, kwargs, node):
     return VOpaque("ndarray", ID, data={"kind": "mat4", "eye": 4, "pos": None, "rotq": None, "building": True})
 
 
+def _array_equal(interp, args, kwargs, node):
+    a, b = args[0], args[1]
+    if kwargs or len(args) != 2 or not all(getattr(x, "kind", None) == "opaque" and x.data and x.data.get("kind") == "mat4" for x in (a, b)):
+        raise EngineError(f"np.array_equal on other than two 4x4 matrices (line {getattr(node, 'lineno', '?')}): no assumed contract")
+    if any(x.data.get("building") and (x.data.get("pos") is not None or x.data.get("rotq") is not None) for x in (a, b)):
+        raise EngineError("np.array_equal on a matrix under construction")
+    return VBool(a.z == b.z)
+
+
 def _shape(interp, o, node):
     k = o.data.get("kind")
     if k == "mat4":
@@ -168,6 +177,7 @@ HANDLERS = {
     "pyquaternion.Quaternion": (_quaternion, "Quaternion(q) copies, Quaternion(matrix=R) is the quaternion of rotation R, Quaternion() the identity"),
     "ndarray.dot": (_dot, "a.dot(b) is the matrix product"),
     "numpy.linalg.inv": (_inv, "np.linalg.inv is the matrix inverse"),
+    "numpy.array_equal": (_array_equal, "np.array_equal(a, b) of two 4x4 matrices: a and b are the same matrix"),
 }
 ATTRS = {("ndarray", "shape"): _shape, ("ndarray", "ndim"): _ndim, ("quaternion", "rotation_matrix"): _rotation_matrix}
 
